@@ -1103,7 +1103,13 @@ def _opaque_unary(name):
         if isinstance(x, SArr):
             dt = x.dtype if x.dtype.kind == "f" else np.dtype("float64")
             f = z3.Function(name + "!uf", z3.RealSort(), z3.RealSort())
-            return A.ewise(lambda t: f(to_real(A.cast_term(x.dtype, dt, t))), dt, x)
+            out = A.ewise(lambda t: f(to_real(A.cast_term(x.dtype, dt, t))), dt, x)
+            c = A.cur()
+            if c is not None:
+                if not hasattr(c, "opaque_log"):
+                    c.opaque_log = []
+                c.opaque_log.append({"name": name, "in": x.snapshot(), "shape": x.shape, "out": out.snapshot()})
+            return out
         f = z3.Function(name + "!uf", z3.RealSort(), z3.RealSort())
         return wrap(f(to_real(term(x))))
     return m
@@ -1197,6 +1203,22 @@ def _npmax(I, a, k):
         w = wf(*idx) if nrest else wf          # the position where the maximum is attained (a function of the remaining indices)
         return [z3.ForAll([kq], z3.Implies(z3.And(kq >= 0, kq < n), along(kq) <= r)), w >= 0, w < n, along(w) == r]
     return _unbox(A.reduce_axis(x, axis, "max", x.dtype, ax))
+
+
+@model(np.min, np.amin)
+def _npmin(I, a, k):
+    if not _anysym(a, k):
+        return NotImplemented
+    x = A.as_sarr(a[0])
+    axis = k.get("axis", a[1] if len(a) > 1 else None)
+    nrest = max(x.ndim - 1, 0) if axis is not None or x.ndim == 1 else 0
+    wf = z3.Function(fresh_name("min_witness"), *([z3.IntSort()] * nrest), z3.IntSort()) if nrest else z3.Int(fresh_name("min_witness"))
+
+    def ax(along, n, r, idx):
+        kq = z3.Int(fresh_name("k"))
+        w = wf(*idx) if nrest else wf
+        return [z3.ForAll([kq], z3.Implies(z3.And(kq >= 0, kq < n), along(kq) >= r)), w >= 0, w < n, along(w) == r]
+    return _unbox(A.reduce_axis(x, axis, "min", x.dtype, ax))
 
 
 @model(np.isnan)
@@ -1482,3 +1504,22 @@ def _matmul(I, a, k):
             c.matmul_log = []
         c.matmul_log.append({"a": x.snapshot(), "a_shape": x.shape, "b": y.snapshot(), "b_shape": y.shape, "out": out.snapshot()})
     return out
+
+
+@model(np.cumsum)
+def _cumsum(I, a, k):
+    """A-NP-SPEC cumsum (1-D): out[0] = x[0], out[k] = out[k-1] + x[k]"""
+    if not _anysym(a, k):
+        return NotImplemented
+    x = A.as_sarr(a[0])
+    if x.ndim != 1:
+        raise Unsupported("cumsum of a n-d array")
+    dt = np.dtype("int64") if x.dtype.kind in "biu" else x.dtype
+    s = x.snapshot()
+    f = z3.Function(fresh_name("cumsum"), z3.IntSort(), A.sort_of(dt))
+    n = A.T(x.shape[0])
+    kq = z3.Int(fresh_name("cs"))
+    el = lambda q: A.cast_term(x.dtype, dt, s((q,)))      # noqa
+    A.note_fact(z3.Implies(n >= 1, f(z3.IntVal(0)) == el(z3.IntVal(0))),
+                z3.ForAll([kq], z3.Implies(z3.And(kq >= 1, kq < n), f(kq) == f(kq - 1) + el(kq)), patterns=[f(kq)]))
+    return SArr(dt, (x.shape[0],), lambda idx: f(idx[0]))
